@@ -29,7 +29,7 @@ CHECKS = {
         "the alternative its index names, nothing is constructed over a live alternative or destroyed twice, local variants are destroyed, results carry the requested/source index, and conditional noexcept-specifications require a nothrow trait for every element operation the simulated body can raise from; the "
         "index/valueless primitives, base constructors, construct_alt and the destroy visitor have their defining shape; the six relational operators match [variant.relops] for every "
         "valueless/index-order scenario incl. functor and operand order; get/get_if/visit/hash reach an alternative only under their guard; the 32-way dispatch switches of a 40-alternative "
-        "instantiation dispatch the alternative of their label. Element constructors running exactly once inside construct_alt, converting-constructor overload selection and value equality with std::variant are NOT decided. The special members of variant<P, int> exist / are trivial exactly as [variant.ctor]/[variant.assign]/[variant.dtor] require for seven payload kinds, and index 254/255 of 255/256-alternative variants is distinct from valueless (compiler witnesses).",
+        "instantiation dispatch the alternative of their label. Element constructors running exactly once inside construct_alt, converting-constructor overload selection and value equality with std::variant are NOT decided. The special members of variant<P, int> exist / are trivial exactly as [variant.ctor]/[variant.assign]/[variant.dtor] require for seven payload kinds, and index 254/255 of 255/256-alternative variants is distinct from valueless (compiler witnesses). swap's noexcept-specification agrees with the swap found by ADL and the moves of the alternatives (witnesses); in a visit of two variants the second variant's switch is entered at block 0.",
    note="Trusts the interpreter in sa/rules/c05.py and clang's pattern AST; element destructors are assumed not to throw; only the C++14+ (generic lambda, relaxed constexpr) configuration is visible."),
  "C06": dict(level="other", design="4.6",
    technique="object-identity typestate interpretation of the vtable slot functions (effect summaries per slot, both families) and of every member of any under all presence/type/alias scenarios with exceptional successors; writer/vtable/reader agreement table over 11 payload types; guard-dominance rules for the casts",
@@ -57,7 +57,7 @@ CHECKS = {
         "basic_fast_dispatcher::dispatch calls m_callbacks[idx0][idx1][idx2](args..., udargs...) with idx_k the class index of argument k, subscripting each level only after idx_k < size() was established and raising the error otherwise; "
         "insert<D0,D1,D2> stores the handler at that slot with the static class indices of D in order, subscripting only after resize_container; resize_container never shrinks a level and leaves index[I] < size() on every path; "
         "in every member of basic_dispatcher an iterator from m_callback_map.find() is used only where it was compared with end(); registration assigns (replaces) under make_key<D...>(); keys come from typeid(args)...; "
-        "handler wrappers cast args position-wise and append the undispatched ones; a failed visitor cast goes to the configured catch_all policy, a successful one to visit(). accept_impl of a visitable declared with a non-default catch_all (the library's throwing policy, a user policy; const and non-const) reaches on_unknown_visitor of exactly that policy, through whatever helpers.",
+        "handler wrappers cast args position-wise and append the undispatched ones; a failed visitor cast goes to the configured catch_all policy, a successful one to visit(). accept_impl of a visitable declared with a non-default catch_all (the library's throwing policy, a user policy; const and non-const) reaches on_unknown_visitor of exactly that policy, through whatever helpers. The casting policies return the named static_cast/dynamic_cast of their parameter (no reinterpreting cast).",
    note="Run-time class-index state across registration histories is not decided; unrelated leaf classes stand for the dynamic types; trusts the two small interpreters in sa/rules/c17_static.py and c17_fast.py."),
  "C10": dict(level="other", design="4.8",
    technique="symbolic evaluation of every operator / wrapper body over the parts of *this and the operands (two spellings of the same computation evaluate to the same value), truth tables of ==/!= over (real equal, imag equal), polynomial identity of the mul/div formulas in (a,b,c,d), Annex-G idiom rule, closure-kind compile witnesses",
@@ -65,7 +65,7 @@ CHECKS = {
         "==/!= have the truth table of real&&imag equality along every path, unary -/+ negate both parts / return the operand; each binary operator X builds its result from the left operand and applies X= with the right; compound "
         "scalar forms touch exactly the parts complex arithmetic says; member assignments are (real<-real, imag<-imag) symmetric; the textbook and Annex G "
         "mul/div (first attempt, recovery, scaled quotient) compute ac-bd, ad+bc, (ac+bd)/(cc+dd), (bc-ad)/(cc+dd) as polynomials; Annex G boxing idioms "
-        "classify the component they box, the divisor scale is logb(max(|c|,|d|)), scalbn exponents agree; all closure-kind combinations compile. A binary operation with at least one IEEE operand yields an IEEE xcomplex in either order (witnesses); the divisor is rescaled whenever its exponent is finite, under no further threshold. The divisor scale of the IEEE division uses the NaN-ignoring fmax.",
+        "classify the component they box, the divisor scale is logb(max(|c|,|d|)), scalbn exponents agree; all closure-kind combinations compile. A binary operation with at least one IEEE operand yields an IEEE xcomplex in either order (witnesses); the divisor is rescaled whenever its exponent is finite, under no further threshold. The divisor scale of the IEEE division uses the NaN-ignoring fmax. The Annex G mode survives unary operators, conj, operations with a scalar and the elementary functions; xcomplex<CTR> defaults the imaginary closure to CTR.",
    note="Rounding, special-value outcomes and scaling accuracy are numeric and NOT decided; trusts the polynomial evaluator and clang/g++."),
  "C11": dict(level="other", design="4.9",
    technique="sibling-storage pairing rule over every member/constructor pattern of both container families, ==/!= shape, paired-iterator lockstep (symbolic positions), default-initialisation witnesses, contents of the built storages (zeroing flags), reference-parameter-before-reallocation typestate",
@@ -80,7 +80,7 @@ CHECKS = {
    text="Decides mutual consistency of the operators: the derived !=,<=,>=,> of both bases are evaluated under the three orderings with == and < as atoms; "
         "it++/it--/it+n/n+it/it-n/it[n] and the size_t extension are executed symbolically (result position, argument untouched, old value returned); "
         "every class built on a base must provide the primitives it derives from; the primitives of xbitset/xoptional/xcomplex/xstepping/xkey/xvalue "
-        "iterators must move every position field by exactly +-1/+-n (times the step) on every path, subtract/compare the same fields in the same orientation. begin/end/cbegin/cend/rbegin/rend/crbegin/crend of xdynamic_bitset_base (const and non-const) designate position 0 / size() and reverse_iterator(end) / reverse_iterator(begin) through whatever delegation. No operand of / % >> or an ordering in the instantiated iterator members is an implicit signed-to-unsigned conversion (a - b for a before b stays negative); a range accessor never returns a container-less iterator.",
+        "iterators must move every position field by exactly +-1/+-n (times the step) on every path, subtract/compare the same fields in the same orientation. begin/end/cbegin/cend/rbegin/rend/crbegin/crend of xdynamic_bitset_base (const and non-const) designate position 0 / size() and reverse_iterator(end) / reverse_iterator(begin) through whatever delegation. No operand of / % >> or an ordering in the instantiated iterator members is an implicit signed-to-unsigned conversion (a - b for a before b stays negative); a range accessor never returns a container-less iterator. The value and the flag storage of the optional containers are used in lockstep (C11's pairing rule, a necessary condition for paired iterator ranges, decided again as C12.pair).",
    note="Traversal visiting exactly the container's elements (begin/end of each container) is covered only for the two sequence families by C11; sub-iterators are assumed lawful."),
  "C07": dict(level="proof", design="4.7",
    technique="generated static_assert / must-compile / must-not-compile witnesses discharged by the compilers, plus designation rules on instantiated xclosure_wrapper<T&> / <T> (what get(), operator& and the constructors designate, helpers followed through their resolved callees) and on the assignment/swap/equality patterns; concrete small-model execution of the bit-reference assignments",
@@ -95,14 +95,14 @@ CHECKS = {
    text="Decides structural necessary conditions: entry points forward (buffer,length,seed) unchanged to the right kernel; std::hash<xbasic_fixed_string> "
         "hashes exactly (data(), size(), constant); no pointer-to-integer conversion, non-local state, foreign callee or wider-pointer block load in the "
         "call graph; every byte read entering arithmetic is zero-extended; in the 32-bit kernel the cursor advances by what the remaining length loses, each block load lies inside the bytes the loop guard guarantees and for every remainder 0..3 the tail reads exactly cursor[0..r-1]; in the 64-bit kernel the loop runs to start + (length & ~7) in steps of 8 with loads inside the block and load_bytes(end, length & 7) runs only under (length & 7) != 0; and the expression trees "
-        "of the hash value (initial value, block update, tail and finalisation for every remainder) equal the reference algorithm's (constants, shifts, byte lanes, mix order). Value equality for every input is not decided as such. The masks applied to the length are folded with the conversions clang recorded (a narrower mask that is zero-extended is reported). Block loops may be written with a moving cursor or with a block index (q = length / w; loads at base + w*i inside their block; the tail starts at base + w*q and is driven by length % w in any spelling); load_bytes is executed over symbolic bytes for every tail count.",
+        "of the hash value (initial value, block update, tail and finalisation for every remainder) equal the reference algorithm's (constants, shifts, byte lanes, mix order). Value equality for every input is not decided as such. The masks applied to the length are folded with the conversions clang recorded (a narrower mask that is zero-extended is reported). Block loops may be written with a moving cursor or with a block index (q = length / w; loads at base + w*i inside their block; the tail starts at base + w*q and is driven by length % w in any spelling); load_bytes is executed over symbolic bytes for every tail count. The length std::hash passes on is the one size() decodes for every storage layout and every length 0..N (C01's encoder/decoder rule decided again as C14.len).",
    note="Reference trees are built in sa/rules/c14.py from MurmurHash2.cpp; an index-based block loop or a rewritten load_bytes is reported as analysis-broken (exit 2), never as a violation; x86-64 only."),
  "C20": dict(level="other", design="4.18",
    technique="API-misuse rule for every readlink site of the header (failure test, counted use, length < capacity by linear entailment, scalar locals read through), abstract string evaluation of prefix_path (cut = everything before the last separator), evaluation of endianness() for each value of the probe byte along every path under two include orders and three standards; path-wise linear entailment per readlink call",
    text="Decides structural conditions on the Linux configuration: readlink's result is tested for failure, the path is built from the returned "
         "length (the buffer is never used as a C string unless a terminator byte is reserved), and the building branch implies length < capacity "
         "(so truncation is retried); prefix_path evaluates to cut(cut(executable_path())) + separator in whichever spelling (helpers, npos ?: forms, += / push_back); "
-        "endianness() yields big/little/mixed exactly when byte 0 of a whole-object copy of a probe with distinct bytes is its MSB/LSB/anything else, compile-time tests folded to this target. The path obtained from the OS is returned unedited (no erase/resize/replace after it was built). readlink is decided path-wise: every string built from the buffer lies behind len >= 0 and len < capacity of the latest call and takes exactly that length (wrappers and functors that forward to readlink are calls of it); prefix_path is evaluated through helpers that edit or return strings.",
+        "endianness() yields big/little/mixed exactly when byte 0 of a whole-object copy of a probe with distinct bytes is its MSB/LSB/anything else, compile-time tests folded to this target. The path obtained from the OS is returned unedited (no erase/resize/replace after it was built). readlink is decided path-wise: every string built from the buffer lies behind len >= 0 and len < capacity of the latest call and takes exactly that length (wrappers and functors that forward to readlink are calls of it); prefix_path is evaluated through helpers that edit or return strings. No path of executable_path returns a string that was given content before the first readlink call.",
    note="What the OS returns for a given install location is outside static reach; only the Linux branch of xsystem.hpp is visible in this sandbox."),
  "C13": dict(level="other", design="4.11",
    technique="type/mask-based interval analysis of table subscripts (const locals read through) + alphabet/sentinel agreement + sentinel-guard dominance in the input loop + accumulator-constant consistency, with locals substituted and comparisons normalised (operand order, negation); bit-provenance dataflow of the alphabet indices of group-wise encoders; exact folding of an alphabet given as a function",
